@@ -91,8 +91,10 @@ def run(ctx, rep):
 
     # ---------------- siblings ----------------
     n_sib = 0
+    SIB_VOCAB = tuple(CMR_FNS | set(vcc.VARIANT_OF) | {"hidden_cloned_ctx", "hidden", "cmr"})
     for f in sorted(methods, key=lambda x: x.path):
         m = f.name
+        f = F.inlined(f, SIB_VOCAB)      # per-arity private helpers (also ones taking the Cmr function as a value) spliced in
         T = Terms(f)
         want_alg = vcc.CMR_ALG_OF[m]
         params = vcc.ARG_PARAMS[m]
@@ -258,6 +260,7 @@ def run(ctx, rep):
     if fp is None:
         rep.anchor("C09.fromparts", "simplicity::node::Node::<N>::from_parts")
     else:
+        fp = F.inlined(fp, tuple(CMR_FNS), depth=3)      # the match may live in a private helper (per-arity helpers included)
         T = Terms(fp)
         sws = enum_switches(fp, "node::inner::Inner")
         if not sws:
@@ -283,7 +286,8 @@ def run(ctx, rep):
                     t = T.operand(a)
                     lf = [x for x in leaves(t) if x[0] == "parampath"]
                     chains = {x[3] for x in lf}
-                    if chains != {(v, str(k))} or vcc.param_roots(t, fm) != {1}:
+                    # the child's root through its accessor, or read directly from its `cmr` field
+                    if chains not in ({(v, str(k))}, {(v, str(k), "cmr")}) or vcc.param_roots(t, fm) != {1}:
                         rep.violation("C09.fromparts", key + ":arg%d" % k, "argument %d of Cmr::%s is %s, expected field %d of Inner::%s"
                                       % (k, want, show(t), k, v), cs.where())
                         okk = False
@@ -302,7 +306,20 @@ def run(ctx, rep):
             t = T.local(0)
             roots = vcc.param_roots(t, fm)
             names = {c[2] for c in calls_in(t)}
-            if roots != {1} or not names <= {"cmr"}:
+            okk = roots == {1} and names <= {"cmr"}
+            if not okk and roots == {1} and names <= {"cmr"} | SELECTORS:
+                # `self.result.as_ref().map_or_else(|cmr| *cmr, N::cmr)`: a selector between the stored root of either side;
+                # every closure it is given returns its argument (or a root read from it), every function item is a `cmr`
+                okk = True
+                for sub in _subterms(t):
+                    if sub[0] == "fnitem" and not str(sub[1]).endswith("::cmr"):
+                        okk = False
+                    if sub[0] == "closure":
+                        g = F.fns.get(sub[1])
+                        tb = Terms(g).local(0) if g is not None else None
+                        if tb is None or not {c[2] for c in calls_in(tb)} <= {"cmr"} or not vcc.param_roots(tb, fm) <= {1, 2}:
+                            okk = False
+            if not okk:
                 rep.violation("C09.hascmr", impl_short(f), "HasCmr::cmr returns %s" % show(t), f.where())
             else:
                 rep.ok("C09.hascmr", impl_short(f), show(t))
@@ -466,7 +483,7 @@ REVIEWED_WRITERS = ("simplicity::node::Node::<N>::from_parts", "simplicity::node
 def _passthrough(F, f, t, _depth=0):
     """f is a private helper that stores, as the root, a value its caller passed in unchanged; every caller is a reviewed
     writer (a Constructible method, from_parts, convert) or such a helper itself, and could splice it in"""
-    if not (isinstance(t, tuple) and t and t[0] == "param") or f.vis == "pub" or f.impl_trait or _depth > 3:
+    if f.vis == "pub" or f.impl_trait or _depth > 3:
         return False
     callers = F.callers_of(f.path)
     if not callers:
@@ -475,12 +492,27 @@ def _passthrough(F, f, t, _depth=0):
         g = F.fns.get(c) if isinstance(c, str) else c
         if g is None:
             return False
+        if F.inlinable(g, f.path) is None:
+            return False
         if g.impl_trait in vcc.CONSTRUCTIBLE_TRAITS and g.name in vcc.VARIANT_OF or g.path in REVIEWED_WRITERS:
-            if F.inlinable(g, f.path) is None:
-                return False
-            continue
+            continue      # judged there, with this helper spliced in
+        if g.file == f.file and g.kind in ("Fn", "AssocFn") and _passthrough(F, g, t, _depth + 1):
+            continue      # a helper of a helper
         return False
     return True
+
+
+SELECTORS = {"map_or_else", "map_or", "unwrap_or_else", "as_ref", "as_deref", "copied", "cloned", "unwrap_or"}
+
+
+def _subterms(t):
+    if isinstance(t, tuple):
+        if t and isinstance(t[0], str):
+            yield t
+        for x in t:
+            if isinstance(x, tuple):
+                for y in _subterms(x):
+                    yield y
 
 
 def _collect_items(rv, used):
